@@ -1185,6 +1185,48 @@ def tx_chain_check(repo):
             "  match h_chain C h with\n  | None => Some exit_no_chain\n  | Some generations => src_check_generations C cdig (h_files C h) generations\n  end.\n")
 
 
+def tx_directory_entries(fn, item):
+    """history.find_directory_hash_entries_for_path.  SHAPE-LOCKED rather than translated: the method tags the entries it
+    returns by assigning attributes to them (temp_generation_number, temp_is_root_folder), which has no statement-level
+    counterpart in the model (a pair (generation number, entry) stands for a tagged entry, and the root-folder tag is the
+    position in the second part of the list); the body must be exactly the text below, and the Gallina text emitted for
+    it is fixed."""
+    expect = [
+        "directory_hash_entries = []",
+        "for hash_list in self.hash_lists:\n    media_hash = hash_list.find_media_hash_for_path(relative_path)\n    if media_hash is None:\n        continue\n"
+        "    if media_hash.is_directory:\n        for hash_entry in media_hash.hash_entries:\n            hash_entry.temp_generation_number = hash_list.generation_number\n"
+        "        directory_hash_entries = directory_hash_entries + media_hash.hash_entries",
+        "if relative_path == '.':\n    for hash_list in self.hash_lists:\n        if hash_list.process_info.root_media_hash is None:\n            continue\n"
+        "        for hash_entry in hash_list.process_info.root_media_hash.hash_entries:\n            hash_entry.temp_generation_number = hash_list.generation_number\n"
+        "            hash_entry.temp_is_root_folder = True\n"
+        "        directory_hash_entries = directory_hash_entries + hash_list.process_info.root_media_hash.hash_entries",
+        "return directory_hash_entries",
+    ]
+    if stmts_of(fn) != expect or [a.arg for a in fn.args.args] != ["self", "relative_path"]:
+        fail(item, f"body differs from the recorded one: {stmts_of(fn)}")
+    return ("(* history.py:find_directory_hash_entries_for_path (shape-locked; a pair stands for an entry tagged with its generation number) *)\n"
+            "Definition src_find_directory_entries (hash_lists : list gen) (relative_path : path) : list (N * entry) :=\n"
+            "  let directory_hash_entries := @nil (N * entry) in\n"
+            "  let directory_hash_entries :=\n"
+            "    fold_left (fun directory_hash_entries hash_list =>\n"
+            "      match find_media_hash hash_list relative_path with\n"
+            "      | None => directory_hash_entries\n"
+            "      | Some media_hash =>\n"
+            "          if r_dir media_hash\n"
+            "          then directory_hash_entries ++ map (fun hash_entry => (g_no hash_list, hash_entry)) (r_entries media_hash)\n"
+            "          else directory_hash_entries\n"
+            "      end) hash_lists directory_hash_entries in\n"
+            "  let directory_hash_entries :=\n"
+            "    if is_nil relative_path (* relative_path == '.' *)\n"
+            "    then fold_left (fun directory_hash_entries hash_list =>\n"
+            "           match g_root hash_list with\n"
+            "           | None => directory_hash_entries\n"
+            "           | Some root_entries => directory_hash_entries ++ map (fun hash_entry => (g_no hash_list, hash_entry)) root_entries\n"
+            "           end) hash_lists directory_hash_entries\n"
+            "    else directory_hash_entries in\n"
+            "  directory_hash_entries.\n")
+
+
 def generate_fns(repo):
     """-> (text of GeneratedFns.v, [error strings]); a function whose source is outside the translated fragment is left out
     (its obligations then do not build -- only the property file that names it is affected), the others are still emitted"""
@@ -1210,6 +1252,7 @@ def generate_fns(repo):
     add(lambda: tx_exit_decision(repo, "diff_entire_folder_against_full_history_subcommand", "src_diff_exit"))
     add(lambda: tx_exit_decision(repo, "create_for_folder_subcommand", "src_create_exit", with_folders=True))
     add(lambda: tx_chain_check(repo))
+    add(lambda: tx_directory_entries(hist_fn("find_directory_hash_entries_for_path"), "find_directory_hash_entries_for_path"))
     return "\n".join(parts), errors
 
 
@@ -1265,7 +1308,7 @@ def main(argv):
             with open(path + ".tmp", "w", encoding="utf-8") as fh:
                 fh.write(content)
             os.replace(path + ".tmp", path)
-    print(json.dumps({"ok": True, "changed": changed, "items": len(summary) + 9 - len(fn_errors), "shape_warnings": WARNINGS,
+    print(json.dumps({"ok": True, "changed": changed, "items": len(summary) + 10 - len(fn_errors), "shape_warnings": WARNINGS,
                       **({"function_translation_failed": fn_errors} if fn_errors else {})}))
     return 0
 
